@@ -2,10 +2,13 @@
 From BT Require Import Base.Util Base.Float.
 From BT Require Model.RTree Model.BBIFile Model.BigWigWrite Model.BedSweep Spec.Depth Model.EntryBedSweep Proofs.DepthStats
   Proofs.SweepRLE Proofs.BedSummary Proofs.BedTile Proofs.ZoomLevels Properties.C08.
+From BT Require Base.LE Generated.Consts Model.BBIRead Proofs.RTreeCodec Proofs.ZoomQuery Proofs.ZoomBwLevels Proofs.C08FileGeom Proofs.C08FileCodec
+  Proofs.C08FileQuery Model.BigBedWrite Proofs.BedZoomFit Proofs.BedReadInfo Proofs.ZoomFile.
 
 Module PinC08.
 Import Model.RTree Model.BBIFile Model.BigWigWrite Model.BedSweep Spec.Depth Model.EntryBedSweep Proofs.DepthStats
   Proofs.SweepRLE Proofs.BedSummary Proofs.BedTile Proofs.ZoomLevels Properties.C08.
+Import Generated.Consts Model.BBIRead Proofs.RTreeCodec Proofs.ZoomQuery Proofs.ZoomBwLevels Proofs.C08FileGeom Proofs.C08FileCodec Proofs.C08FileQuery.
 Local Open Scope N_scope.
 Check (C08_sweep_eq_rle_depth : forall U es,
   U <= U32_MAX -> Forall (entry_ok U) es -> starts_sorted es ->
@@ -36,9 +39,60 @@ Check (C08_file_levels : forall fp two_pass o sizes input sum levels cs,
 Check (eq_refl : level_from = fun fp o cs l =>
   exists per, Forall2 (fun c secs => bb_zoom_records fp (o_ips o) (fst l) (bc_id c) (bc_es c) = Ok secs) cs per /\
               snd l = concat per).
-Check (C08_zoom_query_partial : forall (recs : list zrec) s e z,
-  In z recs -> z_start z < e -> s < z_end z ->
-  In z (filter (fun z => (s <=? z_end z) && (z_start z <=? e)) recs)).
+Check (C08_file_levels_increasing : forall two_pass fp o sizes autosql input f,
+  BedZoomFit.bb_write_either two_pass fp o sizes autosql input = Ok f ->
+  zoom_file_hyps o sizes input f -> zoom_res_u32 two_pass o ->
+  exists i, read_info f = Ok i /\ inc_from 0 (map zh_res (i_zooms i)) /\ Nlen (i_zooms i) <= MAX_ZOOM_LEVELS).
+Check (C08_zoom_query : forall two_pass fp o sizes autosql input f,
+  BedZoomFit.bb_write_either two_pass fp o sizes autosql input = Ok f ->
+  zoom_file_hyps o sizes input f -> zoom_res_u32 two_pass o ->
+  exists i, read_info f = Ok i /\
+    forall r, In r (map zh_res (i_zooms i)) -> 1 <= r /\
+    forall infl c es s e, In (c, es) (BigBedWrite.bruns input) ->
+      exists q secs, chrom_id i c = Ok q
+        /\ bb_zoom_records fp (o_ips o) r q (map BigBedWrite.to_sw es) = Ok secs
+        /\ zoom_interval infl f i c s e r
+           = Ok (map (zrec_read fp) (filter (fun z => (s <=? z_end z) && (z_start z <=? e)) (concat secs)))).
+Check (C08_zoom_query_complete : forall two_pass fp o sizes autosql input f,
+  BedZoomFit.bb_write_either two_pass fp o sizes autosql input = Ok f ->
+  zoom_file_hyps o sizes input f -> zoom_res_u32 two_pass o ->
+  exists i, read_info f = Ok i /\
+    forall r, In r (map zh_res (i_zooms i)) ->
+    forall infl c es s e, In (c, es) (BigBedWrite.bruns input) ->
+      exists q secs ans, chrom_id i c = Ok q
+        /\ bb_zoom_records fp (o_ips o) r q (map BigBedWrite.to_sw es) = Ok secs
+        /\ zoom_interval infl f i c s e r = Ok ans
+        /\ (forall z, In z (concat secs) -> z_start z < e -> s < z_end z -> In (zrec_read fp z) ans)
+        /\ (forall a, In a ans -> exists z, In z (concat secs) /\ a = zrec_read fp z /\ s <= z_end z /\ z_start z <= e)).
+Check (C08_geometry_any_mode : forall fp fp' ips size chrom es secs,
+  bb_zoom_records fp ips size chrom es = Ok secs ->
+  exists secs', bb_zoom_records fp' ips size chrom es = Ok secs' /\ Forall2 (Forall2 geq) secs secs').
+Check (C08_zoom_query_sections : forall q s e (secs : list (list zrec)), Forall sec_ok secs ->
+  flat_map (filter (zkeep q s e)) (filter (zsec_hit q s e) secs) = filter (zkeep q s e) (concat secs)).
+(* the definitions the file-level statements rest on *)
+Check (eq_refl : BedZoomFit.bb_write_either = fun (two_pass : bool) fp o =>
+  if two_pass then BigBedWrite.bb_write_multipass fp o else BigBedWrite.bb_write fp o).
+Check (eq_refl : zoom_file_hyps = fun o sizes input f =>
+  o_bs o <= 65535 /\ Nlen (BigBedWrite.bruns input) < U16
+  /\ Forall (fun it => BedReadInfo.no_nul_name (fst it) /\ Nlen (fst it) < U32 /\ BigBedWrite.e_end (snd it) < U32) input
+  /\ Forall (fun s => snd s < U32) sizes /\ Nlen f <= U64).
+Check (eq_refl : zoom_res_u32 = fun (two_pass : bool) o =>
+  if two_pass then ZoomFile.manual_u32 o else Forall (fun z => z < U32) (zoom_sizes_single o)).
+Check (eq_refl : ZoomFile.manual_u32 = fun o => match o_manual o with Some zs => Forall (fun z => z < U32) zs | None => True end).
+Check (eq_refl : f32_stored = fun fp x => f32_of_bits (bits_of_f32 (to_f32 fp x))).
+Check (eq_refl : zrec_read = fun fp z =>
+  let s := z_sum z in
+  {| z_chrom := z_chrom z; z_start := z_start z; z_end := z_end z;
+     z_sum := {| su_items := 0; su_bases := su_bases s;
+                 su_min := f32_stored fp (su_min s); su_max := f32_stored fp (su_max s);
+                 su_sum := f32_stored fp (su_sum s); su_sumsq := f32_stored fp (su_sumsq s) |} |}).
+Check (eq_refl : geq = fun z z' =>
+  z_chrom z = z_chrom z' /\ z_start z = z_start z' /\ z_end z = z_end z' /\ su_bases (z_sum z) = su_bases (z_sum z')).
+Check (eq_refl : inc_from = fix inc_from (lo : N) (l : list N) : Prop :=
+  match l with [] => True | x :: r => lo < x /\ inc_from x r end).
+Check (eq_refl : BigBedWrite.to_sw = fun x =>
+  {| e_start := BigBedWrite.e_start x; e_end := BigBedWrite.e_end x; e_rest := BigBedWrite.e_rest x |}).
+Check (eq_refl : zkeep = fun q s e z => (z_chrom z =? q) && (s <=? z_end z) && (z_start z <=? e)).
 (* the definitions the statements rest on *)
 Check (eq_refl : zstats_spec = fun d z =>
   let xs := span (z_start z) (z_end z) in
